@@ -809,6 +809,38 @@ fn keeper_config_instances(ctx: &Ctx) -> u64 {
     n
 }
 
+/// (j) a helper call that PANICS (an address helper given a prefix no codec accepts - it always
+/// panicked) must leave nothing behind: the same short history and the same helper calls give the
+/// same transcript before it, after it on the same thread, and after it on another thread.
+fn after_a_panicking_helper(ctx: &Ctx) -> u64 {
+    use cw_multi_test::{IntoAddr, IntoBech32, IntoBech32m};
+    fn transcript() -> Vec<String> {
+        set_watch(Watch::default());
+        let mut out = solo(&[DOp::Store, DOp::Inst, DOp::ExecOk]);
+        out.push(format!("{} {} {}", "name".into_addr(), "name".into_bech32(), "name".into_bech32m()));
+        out.push(format!("{} {}", "name".into_bech32_with_prefix("juno"), "name".into_bech32m_with_prefix("juno")));
+        out
+    }
+    let before = std::thread::spawn(transcript).join();
+    let poison: Vec<Result<(), String>> = vec![
+        std::thread::spawn(|| { let _ = "x".into_bech32_with_prefix(""); }).join().map_err(|_| "panicked".to_string()),
+        std::thread::spawn(|| { let _ = "x".into_bech32m_with_prefix(""); }).join().map_err(|_| "panicked".to_string()),
+        std::thread::spawn(|| { let _ = "x".into_addr_with_prefix(""); }).join().map_err(|_| "panicked".to_string()),
+    ];
+    let after_other_thread = std::thread::spawn(transcript).join();
+    let after_same = std::thread::spawn(|| {
+        let _ = catch(|| "x".into_bech32_with_prefix(""));
+        catch(transcript)
+    })
+    .join();
+    let show = |r: &std::thread::Result<Vec<String>>| match r { Ok(v) => format!("{:016x}", hash64(v, 9)), Err(_) => "PANIC".to_string() };
+    let same = match &after_same { Ok(Ok(v)) => Ok(v.clone()), _ => Err(Box::new(()) as Box<dyn std::any::Any + Send>) };
+    if before.is_err() || show(&before) != show(&after_other_thread) || show(&before) != show(&same) {
+        ctx.violation("c19:a-panicking-helper-call-left-something-behind", json!({"helper_calls_with_an_impossible_prefix": format!("{:?}", poison), "transcript_before": show(&before), "after_on_another_thread": show(&after_other_thread), "after_on_the_same_thread": show(&same)}));
+    }
+    3
+}
+
 pub fn run_c19(ctx: &Ctx) -> i32 {
     crate::tree::puppet::RECORD_ENV.store(true, std::sync::atomic::Ordering::Relaxed);
     let out = explore(ctx, true, false);
@@ -859,7 +891,7 @@ pub fn run_c19(ctx: &Ctx) -> i32 {
     // restore must equal the states reached by replaying their histories on one App
     let (regcov, _) = crate::reg::explore_registry(ctx, ctx.tier.pick(3, 4));
     let h = [DOp::Store, DOp::Inst, DOp::ExecCaught, DOp::Block];
-    let coverage = json!({
+    let mut coverage = json!({
         "states": out.histories + out.pairs,
         "transitions": out.ops,
         "traces_validated_against_impl": out.histories + out.interleaved_runs,
@@ -874,6 +906,8 @@ pub fn run_c19(ctx: &Ctx) -> i32 {
         "caps_hit": [],
         "samples": [{"history": format!("{:?}", h), "transcript": solo(&h)}],
     });
+    // last of all (a subject that fails this stage may have poisoned process-wide state)
+    coverage["transcripts_around_a_panicking_helper_call"] = json!(after_a_panicking_helper(ctx));
     ctx.finish(coverage, vec!["operations outside the alphabet are not covered; wall-clock dependence would only show if it changed an observable within one run".into()])
 }
 
